@@ -116,7 +116,10 @@ fn render_node(n: &Node, st: &Style, depth: usize, root: bool, parent_ns: &str, 
                 out.push_str(&format!(" {k}={q}{}{q}", esc(v).replace(q, if q == '"' { "&quot;" } else { "&apos;" })));
             }
             if e.kids.is_empty() {
-                if st.empt {
+                if st.empt && st.cmt {
+                    // start and end tag with nothing but a comment between them: still an element without content
+                    out.push_str(&format!("><!-- none & nothing <here> --></{qname}>"));
+                } else if st.empt {
                     out.push_str(&format!("></{qname}>"));
                 } else {
                     out.push_str("/>");
@@ -140,7 +143,7 @@ fn render_node(n: &Node, st: &Style, depth: usize, root: bool, parent_ns: &str, 
                 for k in &e.kids {
                     indent(out, depth + 1);
                     if st.cmt {
-                        out.push_str("<!-- c -->");
+                        out.push_str("<!-- c & d: if a < b && b > c -->");
                         indent(out, depth + 1);
                     }
                     render_node(k, st, depth + 1, false, &my_ns, out);
@@ -173,11 +176,12 @@ pub fn render(root: &Node, st: &Style) -> String {
     }
     if st.cmt {
         // comments are allowed before and after the root element as well
-        s.push_str("<!-- before the root -->");
+        // ("&" and "<" are ordinary characters inside a comment)
+        s.push_str("<!-- before the root: user r&d, class <super-user>, &motd; -->");
     }
     render_node(root, st, 0, true, "", &mut s);
     if st.cmt {
-        s.push_str("<!-- after the root -->");
+        s.push_str("<!-- after the root & all -->");
     }
     if st.ws {
         s.push('\n');
